@@ -131,7 +131,9 @@ def index_byte_sets(f):
     p0 = (f.get("params") or [{}])[0].get("id")
     out = {}
     for nd, st, b in C.all_nodes(f):
-        if not (nd.get("k") == "bin" and nd.get("op") == "=="):
+        # `input[1] == ':'` and `input[1] != ':'` name the same byte class (one accepts on it, the other rejects on its
+        # complement): the census does not depend on which way round the function is written
+        if not (nd.get("k") == "bin" and nd.get("op") in ("==", "!=")):
             continue
         l, r = X.strip(nd["l"]), X.strip(nd["r"])
         if X.const_val(l) is not None:
@@ -159,8 +161,15 @@ def check_drive_letters(ctx, fx, rule):
         got = index_byte_sets(f)
         alpha = any(nd.get("k") == "call" and nd.get("name") == "is_alpha" and nd.get("args") and
                     X.show(X.strip(nd["args"][0])).endswith("[0]") for nd, s_, b_ in C.all_nodes(f))
-        size_consts = {X.const_val(nd["r"]) for nd, s_, b_ in C.all_nodes(f)
-                       if nd.get("k") == "bin" and nd.get("op") in ("==", ">=") and "size()" in X.show(nd["l"]) and X.const_val(nd["r"]) is not None}
+        # the lengths the size is compared with, however the test is written (`size() >= 2`, `size() < 2`, `size() == 2`)
+        size_consts = set()
+        for nd, s_, b_ in C.all_nodes(f):
+            if nd.get("k") == "bin" and nd.get("op") in ("==", "!=", "<", "<=", ">", ">=") and "size()" in X.show(nd):
+                v = X.const_val(nd["r"]) if X.const_val(nd["r"]) is not None else X.const_val(nd["l"])
+                if isinstance(v, int) and not isinstance(v, bool):
+                    if nd["op"] in ("<=", ">") and X.const_val(nd["r"]) is not None or nd["op"] in ("<", ">=") and X.const_val(nd["l"]) is not None:
+                        v += 1            # `size() > 1` / `1 < size()` split the integers where `size() >= 2` does
+                    size_consts.add(v)
         n += 1
         ctx.check(rule, "%s byte classes" % q.split("::")[-1], got == want and alpha and size_consts == sizes,
                   "; ".join("[%d] in {%s}" % (k, "".join(chr(c) for c in sorted(v))) for k, v in sorted(got.items())) + "; [0] ASCII alpha",
@@ -202,8 +211,15 @@ def check_shapes(ctx, fx, rule):
     n = 0
     for f in fx.fns("ada::helpers::shorten_path"):
         n += 1
-        guard = any(nd.get("k") == "call" and nd.get("name") == "is_normalized_windows_drive_letter" for nd, s_, b_ in C.all_nodes(f))
-        file_t = any(nd.get("k") == "bin" and nd.get("op") == "==" and "FILE" in X.show(nd) for nd, s_, b_ in C.all_nodes(f))
+        # the test may sit in the overload itself or in a helper both overloads call (one level)
+        nodes = [nd for nd, s_, b_ in C.all_nodes(f)]
+        for nd in list(nodes):
+            if nd.get("k") == "call" and nd.get("fp") and not nd.get("method") and nd.get("callee"):
+                g = fx.fn(nd["callee"])
+                if g is not None and g.get("blocks") and C.first_party(g) and g["qname"].startswith("ada::helpers"):
+                    nodes += [x for x, s_, b_ in C.all_nodes(g)]
+        guard = any(nd.get("k") == "call" and nd.get("name") == "is_normalized_windows_drive_letter" for nd in nodes)
+        file_t = any(nd.get("k") == "bin" and nd.get("op") in ("==", "!=") and "FILE" in X.show(nd) for nd in nodes)
         ctx.check(rule, "%s keeps the file drive-letter exception" % f["key"].split("::")[-1], guard and file_t,
                   "type == FILE && is_normalized_windows_drive_letter(...)",
                   "%s no longer tests `type == FILE` together with is_normalized_windows_drive_letter: \"If url's scheme is file, "
